@@ -34,6 +34,25 @@ var targets = []string{
 	"TraefikOidc.determineScheme", "TraefikOidc.determineHost", "TraefikOidc.determineExcludedURL", "TraefikOidc.isAllowedDomain",
 	"isLocalRedirectTarget", "buildFullURL", "TraefikOidc.extractGroupsAndRoles", "splitIntoChunks",
 	"TraefikOidc.VerifyJWTSignatureAndClaims", "TraefikOidc.isUserAuthenticated",
+	"TraefikOidc.performPreVerificationChecks", "TraefikOidc.cacheVerifiedToken", "TraefikOidc.VerifyToken", "TraefikOidc.RevokeToken",
+}
+
+// calls that read or change the state shared between requests (token cache, revocation list, limiter): the translated function
+// takes that state as its last argument `w` and returns it next to its result; the operations are the fields of `Go.VOps`
+type statefulExt struct {
+	field string
+	now   bool     // the operation reads the clock
+	res   []string // result types
+	anyAt int      // index of an argument passed as interface{} (-1: none)
+}
+
+var statefulExternals = map[string]statefulExt{
+	"t.tokenCache.Get":     {"tokenCacheGet", true, []string{"obj", "bool"}, -1},
+	"t.tokenCache.Set":     {"tokenCacheSet", true, nil, -1},
+	"t.tokenCache.Delete":  {"tokenCacheDelete", false, nil, -1},
+	"t.tokenBlacklist.Get": {"blacklistGet", true, []string{"any", "bool"}, -1},
+	"t.tokenBlacklist.Set": {"blacklistSet", true, nil, 1},
+	"t.limiter.Allow":      {"limiterAllow", true, []string{"bool"}, -1},
 }
 
 // functions of /repo that are not translated but called by translated ones: they become fields of the instance record
@@ -43,6 +62,7 @@ var externals = map[string][]string{
 	"t.extractClaimsFunc":  {"obj", "error"},
 	"t.jwkCache.GetJWKS":   {"jwks", "error"}, // (its arguments are fields of the instance: the field of `Go.Inst` takes none)
 	"jwkToPEM":             {"pem", "error"},
+	"extractClaims":        {"obj", "error"},
 	"verifySignature":      {"error"},
 }
 
@@ -53,12 +73,13 @@ var externalNoArgs = map[string]string{"t.jwkCache.GetJWKS": "getJWKS"}
 var sessGetters = map[string]string{"GetAuthenticated": "bool", "GetAccessToken": "str", "GetRefreshToken": "str", "GetEmail": "str"}
 
 // package-level variables / constants translated (name -> Lean type)
-var globals = map[string]string{"ClockSkewToleranceFuture": "dur", "ClockSkewTolerancePast": "dur", "ClockSkewTolerance": "dur"}
+var globals = map[string]string{"ClockSkewToleranceFuture": "dur", "ClockSkewTolerancePast": "dur", "ClockSkewTolerance": "dur", "defaultBlacklistDuration": "dur"}
 
 type fn struct {
 	key      string
 	decl     *ast.FuncDecl
 	needsNow bool
+	stateful bool // reads or changes the shared state: takes `ops` and `w`, returns the new state next to its result
 	fuel     bool // contains a general `for` loop: takes a fuel argument, result wrapped in Option (none = fuel exhausted)
 	calls    []string
 	retTypes []string
@@ -260,6 +281,8 @@ type ctx struct {
 	scopes  []*scope
 	fresh   int
 	recv    string                // Lean name of the receiver, "" for plain functions
+	pre     []string              // bindings of state-changing calls hoisted out of the expression being translated
+	loops   int                   // nesting depth of loops
 	retWrap []func(string) string // how `return e` is written at this nesting (function level: identity; in a loop body: `.ret e`)
 	brk     []func() string       // what `break` is at this nesting
 }
@@ -377,6 +400,12 @@ func (c *ctx) expr(e ast.Expr) (string, string) {
 		case "strs":
 			return "(Go.idx " + m + " " + k + ")", "str"
 		}
+	case *ast.TypeAssertExpr:
+		v, t := c.expr(x.X)
+		if t == "any" && x.Type != nil && goType(x.Type) == "f64" {
+			return "(Go.assertF64 " + v + ")", "f64" // (panics in Go when the value holds another type)
+		}
+		fail(x, "unsupported type assertion")
 	case *ast.SliceExpr:
 		v, t := c.expr(x.X)
 		if t != "str" || x.Slice3 {
@@ -429,7 +458,11 @@ func (c *ctx) binary(x *ast.BinaryExpr) (string, string) {
 		fail(x, "comparison with nil of a %s", t)
 	}
 	a, ta := c.expr(x.X)
+	npre := len(c.pre)
 	b, tb := c.expr(x.Y)
+	if (x.Op == token.LAND || x.Op == token.LOR) && len(c.pre) != npre {
+		fail(x, "call on the shared state in the right operand of a short-circuit operator")
+	}
 	switch x.Op {
 	case token.LAND:
 		return "(" + a + " && " + b + ")", "bool"
@@ -637,6 +670,17 @@ func (c *ctx) call(x *ast.CallExpr) (string, string) {
 		as, _ := c.args(x)
 		return "(Go.split " + as[0] + " " + as[1] + ")", "strs"
 	}
+	if se, ok := statefulExternals[fun]; ok && len(se.res) <= 1 {
+		as, ts := c.args(x)
+		if se.anyAt >= 0 {
+			as[se.anyAt] = anyWrap(as[se.anyAt], ts[se.anyAt])
+		}
+		pre := []string{"w"}
+		if se.now {
+			pre = append(pre, "now")
+		}
+		return c.statefulCall(x, "ops."+se.field, se.now, se.res, append(pre, as...))
+	}
 	// methods
 	if sel, ok := x.Fun.(*ast.SelectorExpr); ok {
 		// req.Header.Get("Name")
@@ -700,6 +744,56 @@ func (c *ctx) call(x *ast.CallExpr) (string, string) {
 	return "", ""
 }
 
+// takePre returns (and forgets) the bindings of the state-changing calls made by the expressions translated so far; a statement
+// puts them in front of its own code BEFORE it asks for the code that follows it
+func (c *ctx) takePre() string {
+	if len(c.pre) == 0 {
+		return ""
+	}
+	p := strings.Join(c.pre, "\n") + "\n"
+	c.pre = nil
+	return p
+}
+
+func anyWrap(v, t string) string {
+	switch t {
+	case "any":
+		return v
+	case "bool":
+		return "(Go.Any.bool " + v + ")"
+	case "str":
+		return "(Go.Any.str " + v + ")"
+	}
+	fail(nil, "a %s passed as interface{}", t)
+	return ""
+}
+
+// statefulCall hoists a call on the shared state out of the expression: binds its result (and the new state) before the statement
+func (c *ctx) statefulCall(x *ast.CallExpr, callee string, needNow bool, res []string, args []string) (string, string) {
+	if c.loops > 0 {
+		fail(x, "call on the shared state inside a loop")
+	}
+	c.f.stateful = true
+	parts := []string{callee}
+	if needNow {
+		c.f.needsNow = true
+	}
+	parts = append(parts, args...)
+	call := "(" + strings.Join(parts, " ") + ")"
+	switch len(res) {
+	case 0:
+		c.pre = append(c.pre, "let w := "+call)
+		return "()", "unit"
+	case 1:
+		c.fresh++
+		tmp := fmt.Sprintf("r_%d", c.fresh)
+		c.pre = append(c.pre, fmt.Sprintf("let (%s, w) := %s", tmp, call))
+		return tmp, res[0]
+	}
+	fail(x, "call on the shared state with several results inside an expression")
+	return "", ""
+}
+
 func canonical(s string) string {
 	up := true
 	b := []byte(s)
@@ -734,6 +828,10 @@ func (c *ctx) callTranslated(g *fn, x *ast.CallExpr, recv string) (string, strin
 		rt = g.retTypes[0]
 	} else if len(g.retTypes) > 1 {
 		fail(x, "call of a function with several results inside an expression")
+	}
+	if g.stateful {
+		callee := parts[0] + " ops"
+		return c.statefulCall(x, callee, false, g.retTypes, append(parts[1:], "w"))
 	}
 	return "(" + strings.Join(parts, " ") + ")", rt
 }
@@ -824,6 +922,21 @@ func (c *ctx) assign(s *ast.AssignStmt, k func() string) string {
 			return fmt.Sprintf("let (%s, %s) := %s %s\n%s", a, ok, fnm, v, k())
 		case *ast.CallExpr:
 			fun := src(r.Fun)
+			if se, ok := statefulExternals[fun]; ok && len(se.res) == 2 {
+				if c.loops > 0 {
+					fail(r, "call on the shared state inside a loop")
+				}
+				c.f.stateful = true
+				as, _ := c.args(r)
+				pre := []string{"w"}
+				if se.now {
+					c.f.needsNow = true
+					pre = append(pre, "now")
+				}
+				a, b := bind(s.Lhs[0], se.res[0]), bind(s.Lhs[1], se.res[1])
+				hp := c.takePre()
+				return hp + fmt.Sprintf("let ((%s, %s), w) := (ops.%s %s)\n%s", a, b, se.field, strings.Join(append(pre, as...), " "), k())
+			}
 			if rts, ok := externals[fun]; ok && len(rts) == 2 {
 				if field, ok := externalNoArgs[fun]; ok {
 					if c.recv == "" {
@@ -889,7 +1002,8 @@ func (c *ctx) assign(s *ast.AssignStmt, k func() string) string {
 	for _, p := range ps {
 		fmt.Fprintf(&out, "let %s := %s\n", p.name, p.val)
 	}
-	return out.String() + k()
+	hp := c.takePre()
+	return hp + out.String() + k()
 }
 
 func (c *ctx) ret(s *ast.ReturnStmt) string {
@@ -913,7 +1027,16 @@ func (c *ctx) ret(s *ast.ReturnStmt) string {
 	} else if len(vals) > 1 {
 		e = "(" + strings.Join(vals, ", ") + ")"
 	}
-	return c.retWrap[len(c.retWrap)-1](e)
+	if c.f.stateful {
+		if len(c.retWrap) != 1 {
+			fail(s, "return inside a loop of a function on the shared state")
+		}
+		if len(vals) == 0 {
+			return c.takePre() + "w"
+		}
+		return c.takePre() + "(" + e + ", w)"
+	}
+	return c.takePre() + c.retWrap[len(c.retWrap)-1](e)
 }
 
 // assigned collects the outer variables (by Lean name) a loop body assigns
@@ -952,6 +1075,14 @@ func (c *ctx) stmt(s ast.Stmt, k func() string) string {
 	case *ast.ExprStmt:
 		if isLogger(x.X) {
 			return k()
+		}
+		if call, ok := x.X.(*ast.CallExpr); ok { // a call for its effect on the shared state
+			_, t := c.expr(call)
+			if t == "unit" && len(c.pre) > 0 {
+				p := c.takePre()
+				return p + k()
+			}
+			fail(x, "call statement without effect on the shared state")
 		}
 	case *ast.EmptyStmt:
 		return k()
@@ -998,6 +1129,7 @@ func (c *ctx) stmt(s ast.Stmt, k func() string) string {
 			if t != "bool" {
 				fail(x.Cond, "condition of type %s", t)
 			}
+			hoisted := c.takePre()
 			th := c.block(x.Body, outer)
 			var el string
 			switch e := x.Else.(type) {
@@ -1008,7 +1140,7 @@ func (c *ctx) stmt(s ast.Stmt, k func() string) string {
 			case *ast.IfStmt:
 				el = c.stmt(e, outer)
 			}
-			return fmt.Sprintf("if %s then\n%s\nelse\n%s", cond, indent(th), indent(el))
+			return hoisted + fmt.Sprintf("if %s then\n%s\nelse\n%s", cond, indent(th), indent(el))
 		}
 		var out string
 		if x.Init != nil {
@@ -1098,6 +1230,8 @@ func (c *ctx) stmt(s ast.Stmt, k func() string) string {
 			fail(x, "unsupported for form")
 		}
 		c.f.fuel = true
+		c.loops++
+		defer func() { c.loops-- }()
 		state := c.assigned(x.Body)
 		st := tuple(state)
 		cond, ct := c.expr(x.Cond)
@@ -1139,6 +1273,8 @@ func (c *ctx) stmt(s ast.Stmt, k func() string) string {
 		}
 		state := c.assigned(x.Body)
 		st := tuple(state)
+		c.loops++
+		defer func() { c.loops-- }()
 		c.push()
 		v := "_"
 		if varExpr != nil {
@@ -1212,6 +1348,9 @@ func (f *fn) translate() (code string, err string) {
 	}
 	body := c.block(f.decl.Body, func() string {
 		if len(f.retTypes) == 0 {
+			if f.stateful {
+				return "w"
+			}
 			return "()"
 		}
 		fail(f.decl, "control reaches the end of a function with results")
@@ -1219,6 +1358,18 @@ func (f *fn) translate() (code string, err string) {
 	})
 	if f.needsNow {
 		params = append([]string{"(now : Go.Time)"}, params...)
+	}
+	if f.stateful {
+		if f.fuel || len(rts) > 1 {
+			fail(f.decl, "function on the shared state with a general loop or several results")
+		}
+		params = append([]string{"{σ : Type} (ops : Go.VOps σ)"}, params...)
+		params = append(params, "(w : σ)")
+		if len(rts) == 0 {
+			rt = "σ"
+		} else {
+			rt = rt + " × σ"
+		}
 	}
 	if f.fuel {
 		params = append([]string{"(fuel : Nat)"}, params...)
